@@ -642,6 +642,16 @@ def coords(draw, n):
                         min_size=n, max_size=n))
     lon = draw(st.lists(st.integers(-36, 36).map(lambda k: 5.0 * k),
                         min_size=n, max_size=n))
+    if draw(st.integers(0, 2)) == 0:
+        # a patch of a fine regular grid (0.25 degrees): close pairs at
+        # different latitudes, where arccos amplifies every rounding
+        # difference between the two orders of a pair
+        la0 = draw(st.integers(-16, 16)) * 5.0
+        lo0 = draw(st.integers(-34, 34)) * 5.0
+        lat = [la0 + 0.25 * k for k in draw(st.lists(
+            st.integers(0, 7), min_size=n, max_size=n))]
+        lon = [lo0 + 0.25 * k for k in draw(st.lists(
+            st.integers(0, 7), min_size=n, max_size=n))]
     return lat, lon
 
 
